@@ -37,6 +37,48 @@ def keys_read(fn: ast.AST, param: str) -> Set[str]:
     return out
 
 
+def structural_decoding(rep: Report, prog: Program, rid: str) -> None:
+    """The decoders of the interned structural classes rebuild the object from the structural
+    key that was written (Dimension: exponents; Prefix: base and exponent) on every path.  A
+    path that answers from anything else (a name lookup, a cache) can return a different
+    object than the one that was encoded - and Unit.__from_json__ hands the decoded dimension
+    straight to the interning Unit constructor."""
+    for cls, keys in (("Dimension", ("exponents",)), ("Prefix", ("base", "exponent"))):
+        fi = prog.func(f"{cls}.__from_json__")
+        jparam = fi.params()[1]
+        defs: Dict[str, List[ast.AST]] = {}
+        for n in ast.walk(fi.node):
+            if isinstance(n, ast.Assign) and len(n.targets) == 1 and isinstance(n.targets[0], ast.Name):
+                defs.setdefault(n.targets[0].id, []).append(n.value)
+
+        def keys_of(e: ast.AST, depth: int = 0) -> Set[str]:
+            out: Set[str] = set()
+            for x in ast.walk(e):
+                if isinstance(x, ast.Subscript) and isinstance(x.value, ast.Name) and x.value.id == jparam and isinstance(x.slice, ast.Constant):
+                    out.add(x.slice.value)
+                elif isinstance(x, ast.Call) and isinstance(x.func, ast.Attribute) and x.func.attr == "get" and isinstance(x.func.value, ast.Name) \
+                        and x.func.value.id == jparam and x.args and isinstance(x.args[0], ast.Constant):
+                    out.add(x.args[0].value)
+                elif isinstance(x, ast.Starred) or (isinstance(x, ast.keyword) and x.arg is None):
+                    if isinstance(x.value, ast.Name) and x.value.id == jparam:
+                        out |= set(keys)
+                elif isinstance(x, ast.Name) and x.id in defs and depth < 4:
+                    for d in defs[x.id]:
+                        out |= keys_of(d, depth + 1)
+            return out
+        rets = [r for r in ast.walk(fi.node) if isinstance(r, ast.Return) and r.value is not None]
+        if not rets:
+            raise AnalysisError(f"{cls}.__from_json__: no return found")
+        for i, r in enumerate(rets):
+            got = keys_of(r.value)
+            missing = [k for k in keys if k not in got]
+            rep.check(rid, f"{cls}.__from_json__:return#{i}", not missing,
+                      f"`{ast.unparse(r)[:70]}` answers without the encoded {', '.join(missing)}: the decoded {cls} need not be the one "
+                      "that was written (names are local to a process; the structural key is what identifies the object)" +
+                      (", and Unit.__from_json__ passes it to the interning Unit constructor as the unit's dimension" if cls == "Dimension" else ""),
+                      fi.where(r))
+
+
 def run(rep: Report) -> None:
     prog = Program()
     resolver = Resolver(prog)
@@ -50,6 +92,7 @@ def run(rep: Report) -> None:
              "the formatter's language is within the parser's (R13.3 at the serialisation sites)", floor=4)
     rep.rule("R15.5", "Unit.__from_json__: base units resolve by name (every base unit is named); derived units rebuild "
              "through the interning constructor", floor=3)
+    rep.rule("R15.7", "Dimension/Prefix decoders rebuild from the encoded structural key (exponents; base and exponent) on every path", floor=2)
     rep.rule("R15.6", "pickle/copy of a Quantity carry the Unit object itself (no custom reduce/copy hook routes it through text)", floor=1)
 
     # R15.1
@@ -207,6 +250,7 @@ def run(rep: Report) -> None:
                  "decode from JSON / the SQL composite", prog.func("formatting.unit_str").where())
     rep.ok("R15.4", "unit-text:accepted", note={"witnesses_accepted": n_ok})
 
+    structural_decoding(rep, prog, "R15.7")
     # R15.5
     uf = prog.func("Unit.__from_json__")
     jparam = uf.params()[1]
